@@ -3,7 +3,7 @@
 //   wna        [int dim 1|2|3, mat Tq 1x2, int seed, word script: n<num> | m<k> (mat X<k>) | t<k> (mat P<k>, C<k>)]
 //   lti_state  [mat F, mat Q]            lti_meas [mat H, mat R]
 //   linmodel   [int n, word idxs, mat R, int seed, word nums]
-//   sim        [int dim, mat Tq, int seed, mat x0, int len, word ops: b | r | o]
+//   sim        [int dim, mat Tq, int seed, mat x0, int len (0: the constructor must throw), word ops: b | r | o]
 //   sensor     [sim operands + word idxs, mat R, int seed2, word ops: f | r | o]
 //   grid       [mat area 1x4, int nx, int ny, int np, int ctor4, mat st0 4xnp, mat w0 npx1]
 // The standard-normal draws the library's generators produce are mirrored here
@@ -220,12 +220,17 @@ static void run_sim(const vf::Case& c, bool with_sensor) {
     const long d = 2 * dim; const long len = c.integer("len");
     const MatrixXd& x0 = c.mat("x0");
     std::unique_ptr<SimulatedStateModel> sim;
-    {
+    try {
         vf::Entry e("SimulatedStateModel::SimulatedStateModel");
         std::unique_ptr<StateModel> wna(new WhiteNoiseAcceleration(dim_of(dim), T, q, seed));
         VectorXd v0 = x0.col(0);
         sim.reset(new SimulatedStateModel(std::move(wna), v0, (unsigned int)len));
+    } catch (const std::runtime_error& ex) {
+        const std::string what = ex.what();
+        vf::out_str("ctor", what.find("SIMULATEDSTATEMODEL::CTOR") != std::string::npos && what.find("at least 1") != std::string::npos ? "throws_empty" : "throws_other");
+        return;
     }
+    vf::out_str("ctor", "ok");
     Mirror mir(seed); mir.draw(d * (len - 1));
     SimulatedStateModel* simp = sim.get();
     probe(dim, T, q, d);
